@@ -10,4 +10,6 @@ def jobs(tier):
         for vl in ((0, 1, 3) if tier == 'quick' else (0, 1, 2, 3, 4)):
             for pl in ((0, 2) if kk == 0 else (0,)):
                 out.append(Job('resp-k%d-v%d-p%d' % (kk, vl, pl), 'ctrl_resp.cpp', 'h_c29_response', [kk, vl, pl], reach=['parsed'], snippets=SN, timeout=1500, bounds='field kind %d, value of %d characters, payload %d B' % (kk, vl, pl)))
+    for n in ((230,) if tier == 'quick' else (230, 500)):
+        out.append(Job('long-list-%d' % n, 'ctrl_resp.cpp', 'h_c29_long', [n], reach=['parsed-long'], snippets=SN, timeout=2400, bounds='ENTRIES value of %d list lines (%d bytes, beyond 16 KiB), 1 + %d symbolic characters' % (n, n * 86, (n + 49) // 50)))
     return out
